@@ -717,6 +717,7 @@ func c15sOne(ctx *vh.Ctx, c *c15sCase) error {
 			if len(s.Path) > sdepth {
 				sdepth = len(s.Path)
 			}
+			ctx.Res.Dist(fmt.Sprintf("static:static-value-at-depth=%d", len(s.Path)))
 			// a static path of length >= 2 whose first steps lead into a map / any: intermediate maps are created
 			if len(s.Path) >= 2 && c15sThroughMap(t.rt, s.Path) {
 				viaMap = true
@@ -1022,8 +1023,13 @@ func c15sGenCase(r *vh.Rand) *c15sCase {
 		return true
 	}
 	pickTarget := func(ok func(c15PathInfo) bool) (c15PathInfo, bool) {
-		for try := 0; try < 30; try++ {
+		// the depth first (most enumerated paths are deep ones), then a path of that depth
+		want := []int{1, 1, 1, 2, 2, 2, 2, 3, 3, 3}[r.Intn(10)]
+		for try := 0; try < 40; try++ {
 			t := tps[r.Intn(len(tps))]
+			if try < 28 && len(t.path) != want {
+				continue
+			}
 			if free(t.path) && ok(t) {
 				return t, true
 			}
@@ -1141,8 +1147,7 @@ func c15sGenCase(r *vh.Rand) *c15sCase {
 			}
 		}
 		if !ok {
-			deep := r.Chance(55)
-			t, ok = pickTarget(func(t c15PathInfo) bool { return !deep || len(t.path) >= 2 })
+			t, ok = pickTarget(func(t c15PathInfo) bool { return true })
 		}
 		if !ok {
 			continue
@@ -1246,11 +1251,13 @@ func c15sRun(ctx *vh.Ctx) error {
 			return err
 		}
 	}
-	n := ctx.N(700, 15000)
-	// the family's share of the budget
+	n := ctx.N(1500, 30000)
+	// the family's share of the budget; its own generator stream, so that the cases of the mapping
+	// family do not depend on how many cases were run here
+	rng := ctx.Rng.Fork()
 	deadline := ctx.Start.Add(ctx.Budget * 30 / 100)
 	for i := 0; i < n && time.Now().Before(deadline); i++ {
-		c := c15sGenCase(ctx.Rng)
+		c := c15sGenCase(rng)
 		if c == nil {
 			continue
 		}
